@@ -3,7 +3,7 @@
 Model: lean/NumqiModel/SpF2.lean.  Theorems: lean/NumqiProps/C09.lean.
 Correspondence: exact (bit strings / integers), no floats anywhere.
 """
-import itertools, os, sys
+import itertools, os, re, sys
 from concurrent.futures import ProcessPoolExecutor
 import numpy as np
 from . import common
@@ -23,15 +23,40 @@ import random as _random
 
 
 class ScriptedRandom(_random.Random):
-    """a `random.Random` (accepted as `seed` by `get_random_rng`) whose `randint` returns prescribed values"""
+    """a `random.Random` (accepted as `seed` by `get_random_rng`) whose draws are prescribed.  Scripted one level below the public
+    methods: `randint`, `randrange`, `choice`, `shuffle`, `sample` all reduce to `_randbelow(n)` (uniform on [0, n)), so any spelling
+    of "draw an integer below n" is intercepted; `self.calls` records the widths `n` requested, in order.  `getrandbits(k)` is
+    served from the same script (width 2^k)."""
     def __init__(self, values):
         super().__init__(0)
         self.values = list(values)
         self.calls = []
 
-    def randint(self, a, b):
-        self.calls.append((a, b))
-        return self.values.pop(0)
+    def _randbelow(self, n):
+        self.calls.append(int(n))
+        if not self.values:
+            raise ScriptExhausted(f'more draws requested than scripted (width {n})')
+        v = self.values.pop(0)
+        if not (0 <= v < n):
+            raise ScriptExhausted(f'scripted value {v} outside the requested range [0,{n})')
+        return v
+
+    def getrandbits(self, k):
+        return self._randbelow(1 << k)
+
+
+class ScriptExhausted(Exception):
+    pass
+
+
+REJECTION = (AssertionError, ValueError, TypeError, IndexError, KeyError, OverflowError)
+_ERR_TOKEN = re.compile(r'error:[A-Za-z_]+')
+
+
+def canon(out):
+    """the property does not speak about exception classes: every rejection (`error:<kind>` of the model driver, any of the
+    usual exception classes on the implementation side) is the one token `rejected`; accepted vs rejected stays exact"""
+    return _ERR_TOKEN.sub('rejected', out) if isinstance(out, str) else out
 
 
 def vstr(a):
@@ -147,14 +172,16 @@ INT_DTYPES = (np.int64, np.int32, np.uint16)   # accepted by get_inner_product /
 
 
 def guarded(f):
+    """run one call on the implementation; a rejection of the input is the token `rejected` whatever the exception class,
+    any other exception (AttributeError, ScriptExhausted, …) is reported as `raised:<Type>` — never propagated"""
     try:
         return f()
-    except AssertionError:
-        return 'error:assert'
     except Aliasing as e:
         return 'aliasing: ' + str(e)
-    except (ValueError, TypeError, IndexError, KeyError, OverflowError) as e:
-        return 'error:' + type(e).__name__
+    except REJECTION:
+        return 'rejected'
+    except Exception as e:  # noqa: BLE001
+        return 'raised:' + type(e).__name__ + (': ' + str(e)[:120] if isinstance(e, ScriptExhausted) else '')
 
 
 def lam(n):
@@ -227,8 +254,8 @@ def impl_op(op):
                 raise Aliasing('result aliasing: rand_SpF2 with the same draws returns a different matrix after its first result was overwritten in place')
             M = snapM
             t2 = numqi.random.rand_SpF2(n, return_kind='int_tuple', seed=ScriptedRandom(vals))
-            if rr.calls != [(0, b - 1) for b in bases(n)] or rr.values or tuple(t2) != tuple(vals):
-                return f'draws requested {rr.calls}, tuple returned {t2}'
+            if rr.calls != list(bases(n)) or rr.values or tuple(t2) != tuple(vals):
+                return f'draw widths requested {rr.calls} (expected {list(bases(n))}), tuple returned {t2}'
             return mstr(M)
         return guarded(f)
     if k == 'to':
@@ -250,18 +277,50 @@ def impl_op(op):
         return guarded(lambda: str(int(is_sp(marr(t[3])))))
     if k == 'mul':
         return guarded(lambda: mstr((marr(t[3]).astype(np.int64) @ marr(t[4]).astype(np.int64)) % 2))
+    if k == 'i2b':
+        def f():
+            i = int(t[3])
+            r = sp.int_to_bitarray(i, n)
+            snap = np.array(r).copy()
+            r2 = sp.int_to_bitarray(np.int64(i), n) if i < 2 ** 62 else snap   # `int(i)` accepts numpy integers
+            _overwrite(r)                                                    # result ownership (np.frombuffer / unpackbits)
+            r3 = sp.int_to_bitarray(i, n)
+            if not (np.array_equal(snap, r2) and np.array_equal(snap, r3)):
+                raise Aliasing('int_to_bitarray: np.int64 argument or a repeated call after overwriting the result gives a different array')
+            if snap.dtype != np.uint8 or snap.shape != (n,):
+                return f'dtype {snap.dtype} shape {snap.shape}'
+            return vstr(snap) if n else '-'
+        return guarded(f)
+    if k == 'b2i':
+        def f():
+            b = varr('' if t[3] == '-' else t[3])
+            r = pure_call(sp.bitarray_to_int, b)
+            if type(r) is not int:
+                return f'type {type(r).__name__}'
+            if sp.bitarray_to_int(b.astype(bool)) != r:
+                raise Aliasing('dtype bool gives a different result than uint8')
+            return str(r)
+        return guarded(f)
     if k == 'num':
         def f():
-            r = sp.get_number(n, t[3])
+            r = sp.get_number(n, t[3])   # `kind` is lower-cased by the code: 'BASE', 'Order' are accepted, anything else asserts
             # the helper is memoised (lru_cache): other sizes / kinds in between, np.int64 size, then the same call again
             for m, kd in ((40, 'base'), (1, 'order'), (33, 'coset'), (n, 'order'), (n, 'base')):
                 sp.get_number(m, kd)
             r2 = sp.get_number(np.int64(n), t[3])
             if (r2 != r) or (type(r2) is not type(r)):
                 raise Aliasing(f'get_number({n},{t[3]}) changes after other calls: {r} -> {r2}')
-            return str(int(r)) if t[3] == 'order' else tstr(r)
+            return str(int(r)) if t[3].lower() == 'order' else tstr(r)
         return guarded(f)
     return 'bad-op'
+
+
+def safe_impl_op(op):
+    """impl_op never propagates: whatever escapes the per-call guards becomes the token `raised:<Type>` for this op"""
+    try:
+        return impl_op(op)
+    except Exception as e:  # noqa: BLE001
+        return 'raised:' + type(e).__name__
 
 
 def bases(n):
@@ -332,7 +391,8 @@ def _job(args):
             bad.append((t, 'image-symplectic', 'image not symplectic'))
         if isinstance(back, str) or tuple(int(x) for x in back) != t:
             bad.append((t, 'from-to-roundtrip', f'to_int_tuple(from_int_tuple(t)) = {back}'))
-    model = common.run_model(ops)
+    model = [canon(m) for m in common.run_model(ops)]
+    impl = [canon(i) for i in impl]
     dis = [(o, m, i) for o, m, i in zip(ops, model, impl) if m != i]
     return len(ops), len(dis), dis[:20], imgs, bad[:20]
 
@@ -390,6 +450,27 @@ def gen_ops(ctx):
     for n in range(0, 13):
         for kind in ('base', 'order', 'coset'):
             ops.append(f'C09 num {n} {kind}')
+    for n in (1, 2, 5):
+        for kind in ('BASE', 'Order', 'cOsEt', 'foo', 'bases', ''):
+            if kind:
+                ops.append(f'C09 num {n} {kind}')
+    # bit packing: every (i, n) with n <= 10 and i < 2^(n+1) + the byte boundary, lengths around multiples of 8 and 64,
+    # integers that fit the bytes but not the n bits (silent truncation), integers that do not fit (OverflowError), n = 0
+    for n in range(0, 11):
+        top = 256 ** ((n + 7) // 8)
+        for i in sorted(set(list(range(min(2 ** (n + 1), 600))) + [2 ** n - 1, 2 ** n, top - 1, top, top + 1])):
+            ops.append(f'C09 i2b {n} {i}')
+    for n in (15, 16, 17, 31, 32, 33, 63, 64, 65, 79, 80, 81, 127, 128, 129):
+        top = 256 ** ((n + 7) // 8)
+        for i in [0, 1, 2 ** n - 1, 2 ** n, 2 ** n + 1, top - 1, top, 2 * top + 5] + [rng.randrange(2 ** n) for _ in range(3 if quick else 20)] + [rng.randrange(top)]:
+            ops.append(f'C09 i2b {n} {i}')
+    for n in range(0, 11 if quick else 13):
+        for b in itertools.product('01', repeat=n):
+            ops.append(f'C09 b2i {n} {"".join(b) if n else "-"}')
+    for n in (15, 16, 17, 31, 32, 33, 63, 64, 65, 79, 80, 81, 127, 128, 129):
+        for _ in range(3 if quick else 20):
+            ops.append(f'C09 b2i {n} {rand_vec(rng, n)}')
+        ops += [f'C09 b2i {n} {"1" * n}', f'C09 b2i {n} {"0" * (n - 1)}1']
     # all vectors / pairs for small n: inner product, find_transvection (incl. the zero-vector asserts), transvection
     for n in ([1, 2, 3] if quick else [1, 2, 3, 4]):
         vecs = [''.join(v) for v in itertools.product('01', repeat=2 * n)]
@@ -526,8 +607,8 @@ def gen_ops(ctx):
 def correspondence(ctx):
     ops = gen_ops(ctx)
     ops = list(dict.fromkeys(ops))
-    impl = [impl_op(op) for op in ops]
-    model = common.run_model(ops)
+    impl = [canon(safe_impl_op(op)) for op in ops]
+    model = [canon(m) for m in common.run_model(ops)]
     nontriv = lambda op, out: any(c not in '0; -' for c in ''.join(op.split(' ')[3:]))
     common.compare(ctx, ops, impl, model, nontrivial=nontriv)
     report_side_effects(ctx, ops, impl)
@@ -852,9 +933,9 @@ def replay(ctx, payload):
             ctx.fail('implementation-raised', f'{type(e).__name__}: {e}', r)
         hints = None
     elif op in ('side-effect', 'dtype') and 'line' in r:
-        out = impl_op(r['line'])
+        out = canon(safe_impl_op(r['line']))
         report_side_effects(ctx, [r['line']], [out])
-        model = common.run_model([r['line']])
+        model = [canon(m) for m in common.run_model([r['line']])]
         if model and model[0] != out:
             ctx.fail('aliasing' if 'aliasing:' in out else 'correspondence', f"{r['line']}: implementation {out[:200]} model {model[0][:200]}", r)
         hints = None
